@@ -13,7 +13,7 @@ NOTE = ("bounded: only the listed alphabets (names, values, options) and histori
 CLAIMED = {
     "C01": ("Every document reachable by <= depth calls of the document alphabet (about 65 letters, DESIGN 12.2: namespace declarations at document "
             "and bundle level, bundles created and attached, every name spelling, elements, relations, attributes, in-place editors) and every case of the cartesian "
-            "shape sweep (14 namespace environments x 55 record shapes x id modes x all value kinds and attribute-name classes x json.dump "
+            "shape sweep (15 namespace environments x 55 record shapes x id modes x all value kinds and attribute-name classes x json.dump "
             "options) is written as PROV-JSON, read back and compared strictly (URI level, kind-aware, multiset). "
             "Exhaustive within the stated alphabet and bound, nothing sampled.  One recorded finding (F44, two bundles printing alike) is reported as KNOWN-FINDING.", TECH + "; exhaustive shape sweeps", NOTE),
     "C03": ("All interleavings of add_namespace / set_default_namespace / valid_qualified_name (QualifiedName "
@@ -62,7 +62,7 @@ CLAIMED = {
             "dict / pair list / set_time), executed in lock-step with a reference record: normal-form invariant after "
             "every call, refusal iff a different value is offered for a filled formal attribute, refusals change "
             "nothing; plus 1320 literal-vs-native cases over every attribute class and entry path.", TECH, NOTE),
-    "C02": ("Same enumerations as C01 (history exploration of the document alphabet; cartesian shape sweep over 14 "
+    "C02": ("Same enumerations as C01 (history exploration of the document alphabet; cartesian shape sweep over 15 "
             "namespace environments x 55 record shapes x id modes x all value kinds x prov:type/label/value/location/"
             "role and user attributes) restricted by the quantifier's expressibility clauses X1-X4 (each counted), "
             "written as PROV-XML with force_types False and True, read back and compared strictly.",
